@@ -487,6 +487,22 @@ class Piece:
                 wild = "".join("_" if (t.kind == "ident" and t.text in binders) else t.text for t in ptoks if t.text not in ("ref", "mut"))
                 p2 = "".join(t.text for t in lex(pat2))
                 uses = {t.text for t in lex(e2) if t.kind == "ident"}
+                if (p2 == wild or p2 == "_") and (uses & binders) and not any(x in uses for x in ("for", "while", "loop")):
+                    # the second arm's text uses a name the guarded pattern binds (it means another variable there, or binds it anew):
+                    # the guarded arm's own bindings get fresh names, in its pattern, its guard and its body alike
+                    def fresh_(sx):
+                        ts_ = lex(sx)
+                        out_, pos_ = "", 0
+                        for i_, t_ in enumerate(ts_):
+                            out_ += sx[pos_:t_.start]
+                            if t_.kind == "ident" and t_.text in binders and not (i_ > 0 and ts_[i_ - 1].text == "."):
+                                out_ += t_.text + "__g"
+                            else:
+                                out_ += sx[t_.start:t_.end]
+                            pos_ = t_.end
+                        return out_ + sx[pos_:]
+                    pat1, guard, e1 = fresh_(pat1), fresh_(guard), fresh_(e1)
+                    uses = uses - binders
                 if p2 == wild and not (uses & binders):
                     keep_second = False
                 elif p2 == "_" and not (uses & binders) and not any(x in uses for x in ("for", "while", "loop")):
@@ -883,6 +899,37 @@ class Piece:
                 if toks[k - 2].text not in (")", "}"):
                     raise Undecided(f"{fn.name}: .await not applied to a call expression")
                 self._add(toks[k - 1].start, t.end, "", "T-ASYNC")
+                # `timeout(D, FUT).await` (tokio::time): either the time limit fires and FUT is dropped - modelled as "never started" -
+                # or FUT runs to its end: `if fires(D) { Err(elapsed) } else { Ok(FUT) }` (a future cut half-way is not modelled)
+                if toks[k - 2].text == ")" and "time" in self.unit.preludes:
+                    kc_ = k - 2
+                    ko_ = kc_
+                    depth_ = 0
+                    while ko_ > kb:
+                        if toks[ko_].text == ")":
+                            depth_ += 1
+                        elif toks[ko_].text == "(":
+                            depth_ -= 1
+                            if depth_ == 0:
+                                break
+                        ko_ -= 1
+                    if toks[ko_ - 1].text == "timeout" and toks[ko_ - 2].text != ".":
+                        ks_ = ko_ - 1
+                        while toks[ks_ - 1].text == ":" and toks[ks_ - 2].text == ":" and toks[ks_ - 3].kind == "ident":
+                            ks_ -= 3
+                        j_, comma_ = ko_ + 1, None
+                        while j_ < kc_:
+                            if toks[j_].text in OPEN:
+                                j_ = match_close(toks, j_)
+                            elif toks[j_].text == ",":
+                                comma_ = j_
+                                break
+                            j_ += 1
+                        if comma_ is None:
+                            raise Undecided(f"{fn.name}: `timeout` with one argument")
+                        self._add(toks[ks_].start, toks[ko_].end, "(if crate::tokio_time::fires(", "T-ASYNC")
+                        self._add(toks[comma_].start, toks[comma_].end, ") { Err(crate::tokio_time::elapsed()) } else { Ok(", "T-ASYNC")
+                        self._add(toks[kc_].start, toks[kc_].end, ") })", "T-ASYNC")
             if t.text == "async" and k > kb:
                 # async block: `async { B }` / `async move { B }` -> `{ B }`
                 j = k + 1
@@ -1058,6 +1105,20 @@ class Piece:
                         kind_ = "char" if lit.text.startswith("'") and lit.kind != "lifetime" else "str" if lit.text.startswith('"') else None
                         if kind_:
                             self._add(toks[k + 1].start, toks[k + 1].end, f"replace_{kind_}", "T-STR", order=-99)
+        # T-MAP: `M[&K]` (indexing a map by a borrowed key) is `*M.get(&K).unwrap()` - the panic on a missing key becomes the
+        # precondition of `unwrap`
+        for k in range(kb + 2, k1 - 2):
+            if toks[k].text == "[" and toks[k + 1].text == "&" and toks[k - 1].kind == "ident" and toks[k].start == toks[k - 1].end \
+                    and toks[k - 1].text not in ("mut", "in", "return", "let", "if", "match", "else", "move"):
+                kc_ = match_close(toks, k)
+                j_ = k - 1
+                while j_ - 2 > kb and toks[j_ - 1].text == "." and toks[j_ - 2].kind == "ident":
+                    j_ -= 2
+                if toks[j_ - 1].text in (".", "#", "!", ")", "]", "?") or (toks[j_ - 1].text == ":" and toks[j_ - 2].text == ":"):
+                    continue
+                self._add(toks[j_].start, toks[j_].start, "(*", "T-MAP", order=-99)
+                self._add(toks[k].start, toks[k].end, ".get(", "T-MAP", order=-99)
+                self._add(toks[kc_].start, toks[kc_].end, ").unwrap())", "T-MAP", order=-99)
         # T-CONST: a function-local `const NAME: &T = ..;` gets the `'static` the elision stands for (Verus wants it written)
         for k in range(kb + 1, k1 - 4):
             if toks[k].text == "const" and toks[k + 1].kind == "ident" and toks[k + 2].text == ":" and toks[k + 3].text == "&" \
@@ -2345,6 +2406,28 @@ class Unit:
             if path:
                 emit("}\n", kind="glue")
         emit_module("", tree, 0)
+        # T-CONST (automatic, crate root): `crate::NAME` in the verified text, NAME a constant of a primitive type defined in the crate's
+        # root file (main.rs / lib.rs) and not declared by the unit: the definition is carried over as it stands
+        sofar_ = "".join(out)
+        vtext_ = "".join(o_ for o_, r_ in zip(out, regions) if r_.get("kind") in ("orig", "rewrite"))
+        root_src_ = ""
+        for cand_ in ("main.rs", "lib.rs"):
+            try:
+                root_src_ += open(os.path.join(REPO, self.root, "src", cand_), encoding="utf-8").read() + "\n"
+            except OSError:
+                pass
+        added_ = []
+        for nm_ in sorted(set(re.findall(r"\bcrate::([A-Z][A-Z0-9_]+)\b", vtext_))):
+            if re.search(r"\b(?:const|static|fn)\s+" + nm_ + r"\b", sofar_):
+                continue
+            mc_ = re.search(r"(?m)^pub\s+const\s+" + nm_ + r"\s*:\s*(u8|u16|u32|u64|u128|usize|i32|i64|isize|bool|&str|&'static str)\s*=\s*([^;]+);", root_src_)
+            if mc_:
+                ty_ = "&'static str" if mc_.group(1) == "&str" else mc_.group(1)
+                c_ = f"pub const {nm_}: {ty_} = {mc_.group(2).strip()};"
+                added_.append(c_)
+                self.auto_log.append({"rule": "T-CONST", "file": self.root + "/src", "item": nm_, "from": mc_.group(0), "to": c_})
+        if added_:
+            emit("verus! {\n" + "\n".join(added_) + "\n}\n", kind="glue")
         emit("fn main() {}\n", kind="glue")
         if self.baseline_attrs is not None:
             for key in sorted(set(self.attrsigs) | set(self.baseline_attrs)):
